@@ -727,6 +727,19 @@ func (proc *Conproc) Write_verilog(conf *Config, arch *Arch, processor_module_na
 		result += op.Op_instruction_verilog_footer(arch, flavor)
 	}
 
+	// The handshake registers of the ports are declared by the I/O instructions of the processor: a
+	// port that none of its instructions reads or drives still needs them (held at zero)
+	for i := 0; i < int(proc.N); i++ {
+		if !strings.Contains(result, "\treg "+strings.ToLower(Get_input_name(i))+"_recv;") {
+			result += "	reg " + Get_input_name(i) + "_recv = 1'b0;\n"
+		}
+	}
+	for i := 0; i < int(proc.M); i++ {
+		if !strings.Contains(result, "\treg "+strings.ToLower(Get_output_name(i))+"_val;") {
+			result += "	reg " + Get_output_name(i) + "_val = 1'b0;\n"
+		}
+	}
+
 	for i := 0; i < int(proc.N); i++ {
 		result += "	assign " + Get_input_name(i) + "_received = " + Get_input_name(i) + "_recv;\n"
 	}
